@@ -58,8 +58,8 @@ type sendTr struct {
 	recv      types.Object
 	own       map[types.Object]bool // byte buffers that are a memory of their own
 	sent      bool
-	callMem   *evar // set by encCall when the destination of the call is a buffer of its own
-	wrapper   bool                          // no pool buffer of its own: the function ends in a call of a translated send path
+	callMem   *evar                       // set by encCall when the destination of the call is a buffer of its own
+	wrapper   bool                        // no pool buffer of its own: the function ends in a call of a translated send path
 	senders   map[*types.Func]*sendResult // translated send paths (callable from wrappers)
 }
 
